@@ -109,10 +109,15 @@ def check(acc, job):
     if m is None:
         return
     text = m.text()
+    blank_at = job[3] if len(job) > 3 else None
+    if blank_at is not None:
+        ls = text.split('\n')
+        ls.insert(min(blank_at, len(ls) - 1), '')
+        text = '\n'.join(ls)
     acc.state(digest(text))
     from ..model import sig_kind
     partial = any(len({sig_kind(c.spec) for c in r}) > 1 for r in m.crows())
-    case = {'text': text, 'headers': job[0], 'seq': job[1], 'seed': job[2], 'partial_signature_row': partial}
+    case = {'text': text, 'headers': job[0], 'seq': job[1], 'seed': job[2], 'partial_signature_row': partial, 'blank_at': blank_at}
     if all(h == '**kern' for h in job[0]):
         oracle(acc, text, case, {})
     else:
@@ -162,11 +167,12 @@ def run(ctx):
     ctx.bounds = {'sequence_length': '5/4/4/3 (quick) 6/5/5/4 (thorough) for 1/2/2/3 spines', 'deviations_k': 2 if ctx.quick else 3}
     ctx.assumptions = ['a data line = a line none of whose cells starts with * ! or =; the oracle is indifferent to whether an empty leading measure is numbered']
     jobs = jobs_for(ctx.tier, ctx.seed)
+    jobs += [(j[0], j[1], j[2], 1 + k % 4) for k, j in enumerate(jobs) if k % 7 == 0 and ('J0' in j[1] or 'S0' in j[1])]   # blank-line variants
     longs = D.long_kern_docs(ctx.seed) + [(['**kern', '**text'], j[1], ctx.seed) for j in D.long_kern_docs(ctx.seed, reps=(4,))[:1]]
     ctx.pmap(_job, [[j] for j in longs] + list(X.chunks(jobs, 100)), chunksize=1)
 
 
 def replay(case):
     acc = Acc()
-    check(acc, (case['headers'], case['seq'], case['seed']))
+    check(acc, (case['headers'], case['seq'], case['seed'], case.get('blank_at')))
     return acc.viol
